@@ -117,10 +117,18 @@ def schedOp (st : Option MSched) (toks : List String) : Option MSched × String 
           let opened := opened.toArray.qsort (· < ·) |>.toList
           let objs := opened.map fun sid =>
             match s.objs.find? (·.sid == sid) with
-            | some ob => s!"{sid}:{b01 ob.closedFlag}:{showSyn true ob.synack}"
+            | some ob => s!"{sid}:{b01 ob.closedFlag}:{showSyn true ob.synack}:{if s.closed then "?" else hexOfBytes ob.rd.pending}"
             | none => s!"{sid}:?"
           (some m, o ++ s!" closed={b01 s.closed} streams=[{natList (sortedKeys s.streams)}] recv=[{natList (sortedKeys s.recv)}] buf={b01 s.buffering},{s.buffer.length} objs=[{joinSep "," objs}]")
         else (st, "bad-op")
+      | ["feed", hx] =>
+        match bytesOfHex hx with
+        | some bytes =>
+          -- the receive loop handles these frames without taking the write-path locks
+          let cs := { m.cs with s := m.cs.s.feedBytes bytes }
+          let (m, o) := ({ m with cs := settle 64 cs } : MSched).obs
+          (some m, o)
+        | none => (st, "bad-op")
       | ["budget", k] =>
         if k == "none" then (some { m with cs := { m.cs with s := { m.cs.s with wrBudget := none } } }, "ok")
         else match k.toNat? with
